@@ -4,7 +4,7 @@
    Model: model/Cli.v (TOML validation + translation, two argparse passes into one namespace);
    spec: spec/Precedence.v.  The generic theorems hold for every well-formed option table; they are
    instantiated below on the generated tables. *)
-From RattrV Require Import Base Str Cli Precedence CliTable C20Proofs.
+From RattrV Require Import Base Str Cli Precedence CliTable C20Proofs ProjRoot C20Root.
 Open Scope string_scope.
 Open Scope list_scope.
 
@@ -86,3 +86,28 @@ Example C20_examples :
   /\ spec_outcome toml_descs toml_types toml_rename cli_descs [("exclude", TList [TStr "-foo"])] [] <> None
   /\ parse_arguments toml_descs cli_descs toml_types toml_rename [("exclude", TList [TStr "-foo"])] [] = None.
 Proof. vm_compute. repeat split; try reflexivity. discriminate. Qed.
+
+(* ---------- which TOML file is selected ---------- *)
+(* model/ProjRoot.v: the chain is the working directory followed by its ancestors, with the markers the harness
+   stats in each; compared with rattr's find_project_root / find_pyproject_toml and with the configuration real
+   runs visibly use *)
+Theorem C20_root_is_nearest_marked_directory :
+  forall chain,
+  (exists d, nth_error chain (find_root chain) = Some d /\ is_root d = true
+             /\ forall j dj, j < find_root chain -> nth_error chain j = Some dj -> is_root dj = false)
+  \/ (find_root chain = 0 /\ forall d, In d chain -> is_root d = false).
+Proof. exact root_is_nearest_marked_directory. Qed.
+Theorem C20_project_toml_is_in_the_root :
+  forall chain i, project_toml chain = Some i ->
+    i = find_root chain /\ exists d, nth_error chain i = Some d /\ d_pyproject d = IsFile.
+Proof. exact project_toml_is_in_the_root. Qed.
+Theorem C20_nested_checkout_hides_outer_configuration :
+  forall d rest, is_root d = true -> d_pyproject d <> IsFile -> project_toml (d :: rest) = None.
+Proof. exact nested_checkout_hides_outer_configuration. Qed.
+Theorem C20_override_wins_when_it_exists : forall chain, select_toml true true chain = TOverride.
+Proof. exact override_wins_when_it_exists. Qed.
+Theorem C20_missing_override_falls_back :
+  forall chain given, select_toml given false chain = match project_toml chain with Some i => TProject i | None => TNothing end.
+Proof. exact missing_override_falls_back. Qed.
+Print Assumptions C20_root_is_nearest_marked_directory.
+Print Assumptions C20_nested_checkout_hides_outer_configuration.
